@@ -143,35 +143,44 @@ def check(prog, rep, tier):
     probs = []
     calls = [n for n in ast.walk(g.node) if isinstance(n, ast.Call) and isinstance(n.func, ast.Name) and
              n.func.id == g.params[0]]
-    ifs = [n for n in ast.walk(g.node) if isinstance(n, ast.If) and '_ready_to_send_msg' in src_of(n.test)
-           and not isinstance(n.test, ast.UnaryOp)]
     if not calls:
         probs.append('the wrapped view is never called')
+    inner = [n for n in ast.walk(g.node) if isinstance(n, ast.FunctionDef) and n is not g.node]
     for c in calls:
-        if not any(any(c is x for b in i.body for x in ast.walk(b)) for i in ifs):
-            probs.append('the wrapped view is called outside `if _ready_to_send_msg(...)`')
+        scope = next((fn for fn in inner if any(c is x for x in ast.walk(fn))), g.node)
+        cs = common.conds_at(scope, c)
+        if not common.holds(cs, lambda e: isinstance(e, ast.Call) and src_of(e.func) == '_ready_to_send_msg'):
+            probs.append('the wrapped view is called on a path where `_ready_to_send_msg(...)` is not known to hold')
     if probs:
         rep.bad('R16.b', 'gate-shape', file=g.file, line=g.node.lineno, func=g.qualname, found='; '.join(probs),
                 key='gate-shape')
     else:
         rep.ok('R16.b', 'gate-shape', file=g.file, line=g.node.lineno)
-    txt = src_of(r.node)
-    trues = [n for n in ast.walk(r.node) if isinstance(n, ast.Return) and isinstance(n.value, ast.Constant)
-             and n.value.value is True]
-    direct = [n for n in ast.walk(r.node) if isinstance(n, ast.Return) and isinstance(n.value, ast.Compare)]
-    okr = bool(trues) or bool(direct)
-    for d in direct:
-        if not ('ST_ESTABLISHED' in src_of(d.value) and len(d.value.ops) == 1 and isinstance(d.value.ops[0], ast.Eq)):
+    def is_estab_test(e):
+        t = common.unalias(r.node, e)
+        try:
+            e2 = ast.parse(t, mode='eval').body
+        except SyntaxError:
+            return False
+        return isinstance(e2, ast.Compare) and len(e2.ops) == 1 and isinstance(e2.ops[0], ast.Eq) and \
+            'ST_ESTABLISHED' in t
+    okr = False
+    rets = [n for n in ast.walk(r.node) if isinstance(n, ast.Return)]
+    okr = bool(rets)
+    seen_true = False
+    for n in rets:
+        v = n.value
+        if v is None or (isinstance(v, ast.Constant) and not v.value):
+            continue
+        if isinstance(v, ast.Constant) and v.value is True:
+            seen_true = True
+            if not common.holds(common.conds_at(r.node, n), is_estab_test):
+                okr = False
+        elif is_estab_test(v):
+            seen_true = True
+        else:
             okr = False
-    other_rets = [n for n in ast.walk(r.node) if isinstance(n, ast.Return) and n not in trues and n not in direct]
-    for o in other_rets:
-        if not (o.value is None or (isinstance(o.value, ast.Constant) and not o.value.value)):
-            okr = False
-    for t in trues:
-        guard = [i for i in ast.walk(r.node) if isinstance(i, ast.If) and any(t is x for b in i.body for x in ast.walk(b))]
-        if not guard or not all('ST_ESTABLISHED' in src_of(i.test) and isinstance(i.test, ast.Compare) and
-                                isinstance(i.test.ops[0], ast.Eq) for i in guard):
-            okr = False
+    okr = okr and seen_true
     if okr:
         rep.ok('R16.b', 'ready-predicate', file=r.file, line=r.node.lineno)
     else:
